@@ -73,6 +73,12 @@ def conv_case(rnd, cls, with_q=True):
   usebias = rnd.random() < 0.6
   hasact = with_q and rnd.random() < 0.6
   common = dict(strides=s if one_d else (s, s), padding=pad, use_bias=usebias)
+  # channels_first: the same geometry with the channel axis in front (events stay in channels-last layout)
+  cf = pad != "causal" and rnd.random() < 0.3
+  if cf:
+    common["data_format"] = "channels_first"
+  to_cf = (lambda a: np.moveaxis(np.asarray(a), -1, 1)) if cf else (lambda a: np.asarray(a))
+  to_cl = (lambda a: np.moveaxis(np.asarray(a), 1, -1)) if cf else (lambda a: np.asarray(a))
   if cls in ("QConv1D", "QConv2D"):
     common["dilation_rate"] = d if one_d else (d, d)
   if cls in ("QConv1D", "QConv2D"):
@@ -97,23 +103,28 @@ def conv_case(rnd, cls, with_q=True):
   lay = getattr(qkeras, cls)(**common, **qkw)
   shape = (w, cin) if one_d else (h, w, cin)
   x = np.array([rnd.randint(-6, 6) for _ in range(int(np.prod(shape)))], dtype=np.float32).reshape((1,) + shape) * 2.0 ** SX
-  lay.build((None,) + shape)
+  bshape = ((shape[-1],) + shape[:-1]) if cf else shape
+  lay.build((None,) + bshape)
   ws = [np.random.RandomState(rnd.randint(0, 10 ** 6)).uniform(-1.2, 1.2, v.shape).astype(np.float32) for v in lay.get_weights()]
   if usebias:
     ws[-1] = np.random.RandomState(rnd.randint(0, 10 ** 6)).uniform(-3, 3, ws[-1].shape).astype(np.float32)
   lay.set_weights(ws)
   del log[:]
-  y = lay(tf.constant(x)).numpy()
+  xin = tf.constant(to_cf(x))
+  y = to_cl(lay(xin).numpy())
   applied = [r for r, _, _ in log]
   rec = {r: (a, b) for r, a, b in log}
   g = {"sh": 1 if one_d else s, "sw": s, "dh": 1 if one_d else d, "dw": d, "pad": pad}
   ev = {"kind": "layer", "cls": cls, "g": g, "usebias": int(usebias), "hasact": int(hasact), "ph": 1, "pw": 1, "qm": 1,
-        "applied": applied, "dm": dm}
+        "applied": applied, "dm": dm, "cf": int(cf)}
   if not with_q:
     st = stock_for(cls, common)
-    st.build((None,) + shape)
-    st.set_weights([np.reshape(a, b.shape) for a, b in zip(ws, st.get_weights())])
-    ev.update({"kind": "plain", "stock": int(np.array_equal(st(tf.constant(x)).numpy(), y))})
+    st.build((None,) + bshape)
+    # (QSeparableConv1D keeps its depthwise kernel 4-D: same elements, one more unit axis)
+    same_shapes = [int(np.prod(v.shape)) for v in st.get_weights()] == [int(np.prod(v.shape)) for v in ws]
+    if same_shapes:
+      st.set_weights([np.reshape(a, b.shape) for a, b in zip(ws, st.get_weights())])
+    ev.update({"kind": "plain", "stock": int(same_shapes and np.array_equal(to_cl(st(xin).numpy()), y))})
     return ev
   names = ["kernel", "depthwise", "pointwise", "bias"]
   ev["reported"] = [names_for(lay)[j] for j, q in enumerate(lay.get_quantizers()) if q is not None]
@@ -123,13 +134,13 @@ def conv_case(rnd, cls, with_q=True):
     if r in rec:
       qws.append(rec[r][1])
   st = stock_for(cls, common)
-  st.build((None,) + shape)
-  if len(qws) == len(st.get_weights()):
+  st.build((None,) + bshape)
+  if [int(np.prod(np.shape(a))) for a in qws] == [int(np.prod(b.shape)) for b in st.get_weights()]:
     st.set_weights([np.reshape(a, b.shape) for a, b in zip(qws, st.get_weights())])
-    ys = st(tf.constant(x))
+    ys = st(xin)
     if hasact:
       ys = AQ()(ys)
-    ev["stock"] = int(np.array_equal(np.asarray(ys), y))
+    ev["stock"] = int(np.array_equal(to_cl(ys), y))
   else:
     ev["stock"] = 0
   two = cls.startswith("QSeparable")
@@ -147,7 +158,7 @@ def conv_case(rnd, cls, with_q=True):
   else:
     ev["qk2"] = [[[[0]]]]
   ev["qb"] = ints(rec["bias"][1], pre_exp) if usebias else [0]
-  pre = rec["activation"][0][0] if hasact else y[0]
+  pre = to_cl(rec["activation"][0])[0] if hasact else y[0]
   ev["pre"] = ints(pre if not one_d else np.asarray(pre)[None, ...], pre_exp)
   return ev
 
@@ -386,7 +397,11 @@ def rnn_case(rnd, cls):
     ws[-1] = np.random.RandomState(rnd.randint(0, 10 ** 6)).uniform(-3, 3, ws[-1].shape).astype(np.float32)
   lay.set_weights(ws)
   del log[:]
-  y = lay(tf.constant(x)).numpy()
+  # half of the cases: a step mask (what a Masking / Embedding(mask_zero=True) layer in front hands over)
+  mask = None
+  if rnd.random() < 0.5:
+    mask = tf.constant(np.array([[rnd.random() < 0.6 for _ in range(steps)]]))
+  y = lay(tf.constant(x), mask=mask).numpy()
   roles = [r for r, _, _ in log]
   per_step = [r for r in ("kernel", "recurrent") if present[r]] + (["bias"] if usebias and present["bias"] else [])
   # every time step applies each weight quantizer exactly once (order inside a step is the cell's business)
@@ -399,7 +414,7 @@ def rnn_case(rnd, cls):
   if usebias:
     qw.append(np.asarray(BQ()(tf.constant(ws[2]))) if present["bias"] else ws[2])
   st.set_weights(qw)
-  ys = st(tf.constant(x)).numpy()
+  ys = st(tf.constant(x), mask=mask).numpy()
   tol = 4 * np.spacing(np.maximum(np.abs(ys), np.float32(1e-6)).astype(np.float32))
   return {"kind": "rnn", "cls": cls, "impl": impl or 0, "usebias": int(usebias), "applied_ok": int(ok),
           "stock": int(bool(np.all(np.abs(ys - y) <= tol))), "applied": roles[:6],
